@@ -196,6 +196,21 @@ def shift_ranges(t, delta):
         return [shift_ranges(x, delta) for x in t]
     return t
 
+def item_shape(x):
+    """'none' | (some (ok (Variant ..))) -> 'ok Variant' | (some (err E)) -> the error"""
+    if x == 'none' or not isinstance(x, list):
+        return ser(x)
+    r = x[1]
+    if S.is_ok(r):
+        return 'ok ' + (r[1][0] if isinstance(r[1], list) else ser(r[1]))
+    return ser(r)
+
+def res_shape(r):
+    t = S.parse(r) if r else None
+    if S.is_ok(t):
+        return 'ok ' + (t[1][0] if isinstance(t[1], list) else ser(t[1]))
+    return r
+
 class C11(Prop):
     name = 'compound accepted iff tiled; iteration = generic parser per tile, stops at first error, stays finished'
     rule = ('concatenations of 1..6 packet images, each possibly mutated, with truncated/extended tails and length '
@@ -234,9 +249,10 @@ class C11(Prop):
     def relevant(self, line, impl, model):
         return kind_of(line) == 'parse' and entry_of(line) in ('compound', 'packet')
     def proj(self, line, obs):
+        # the compound machinery only: accepted?, and per next() call none / ok variant / error
         if entry_of(line) == 'packet':
-            return (obs.get('r'),)
-        return (ok_str(obs.get('r')), obs.get('items'))
+            return ()
+        return (ok_str(obs.get('r')) or obs.get('r'), tuple(item_shape(x) for x in (S.parse(obs.get('items', '()')) or [])))
     def nontrivial(self, line, impl):
         return entry_of(line) == 'compound' and len(input_of(line)) >= 4
     def oracle(self, line, impl, model):
@@ -294,7 +310,9 @@ class C12(Prop):
     def relevant(self, line, impl, model):
         return kind_of(line) == 'parse' and entry_of(line) in self.ALL + ['packet']
     def proj(self, line, obs):
-        return (obs.get('r'), obs.get('conv'), obs.get('convv'))
+        # dispatch and conversion structure only: which variant / which error, not the field values
+        conv = tuple(tuple(res_shape(ser(x)) for x in (S.parse(obs.get(k, '()')) or [])) for k in ('conv', 'convv'))
+        return (res_shape(obs.get('r')), conv)
     def nontrivial(self, line, impl):
         return entry_of(line) == 'packet' and len(input_of(line)) >= 4
     def group_oracle(self, recs):
@@ -488,12 +506,16 @@ class C14(Prop):
     def relevant(self, line, impl, model):
         return kind_of(line) == 'build'
     def proj(self, line, obs):
+        if member_type(line) != 'compound':
+            return ()
         return (obs.get('size'), obs.get('get_padding'),
-                tuple((r, b) for r, b in writes_of(obs.get('writes'))), obs.get('rt.r'), obs.get('rt.items'))
+                tuple((r, b) for r, b in writes_of(obs.get('writes'))), res_shape(obs.get('rt.r')),
+                tuple(item_shape(x) for x in (S.parse(obs.get('rt.items', '()')) or [])))
     def nontrivial(self, line, impl):
         return member_type(line) == 'compound'
     def group_oracle(self, recs):
         by = {l: a for l, a, m in recs}
+        bym = {l: m for l, a, m in recs}
         out = []
         for line, a, m in recs:
             if member_type(line) != 'compound':
@@ -503,7 +525,8 @@ class C14(Prop):
             if any(s is None for s in subs):
                 continue
             sizes = [s.get('size', '') for s in subs]
-            pads = [s.get('get_padding', 'none') for s in subs]
+            # the padding each member was configured with (from the configuration, via the model)
+            pads = [bym['build e0:aa,e0:55 ' + x].get('get_padding', 'none') for x in ms]
             all_ok = all(ok_str(z) for z in sizes)
             nonlast_padded = any(p != 'none' for p in pads[:-1])
             should = all_ok and not nonlast_padded
@@ -711,7 +734,7 @@ class C19(Prop):
             out.append('build e0:aa,e0:55,e-1:aa ' + m)
             if g.chance(0.3) and not (m.startswith('unk') and int(m.split()[2]) in ENTRY_PT.values()):
                 g.in_compound = True
-                other = g.leaf(valid=True, pad=0, kinds=['rr', 'bye', 'sr'])
+                other = 'rr 0 %d 0' % g.ssrc()
                 last = g.custom(valid=True) if g.chance(0.5) else g.unk(valid=True, pt=g.pick([0, 77, 192, 199, 207, 208, 255]))
                 first = ' '.join(m.split()[:4] + ['0'] + m.split()[5:]) if m.startswith('custom') else 'unk 0 ' + ' '.join(m.split()[2:])
                 out.append('build e0:aa compound 3 %s %s %s' % (first, other, last))
@@ -733,7 +756,8 @@ class C19(Prop):
     def proj(self, line, obs):
         if kind_of(line) == 'parse':
             return (ok_str(obs.get('r')), obs.get('via_packet'))
-        return (obs.get('size'), tuple(writes_of(obs.get('writes'))), obs.get('rt.r'), obs.get('rt.via_packet'), obs.get('rt.items'))
+        return (obs.get('size'), tuple(writes_of(obs.get('writes'))), obs.get('rt.r'), obs.get('rt.via_packet'),
+                tuple(item_shape(x) for x in (S.parse(obs.get('rt.items', '()')) or [])))
     def oracle(self, line, impl, model):
         fails = []
         if kind_of(line) == 'parse':
